@@ -50,6 +50,9 @@ func (t *MemoryDevice) GetAirTemperature(_ context.Context, req *traits.GetAirTe
 
 func (t *MemoryDevice) UpdateAirTemperature(_ context.Context, request *traits.UpdateAirTemperatureRequest) (*traits.AirTemperature, error) {
 	update, err := t.airTemperature.Set(request.State, resource.WithUpdateMask(request.UpdateMask))
+	if err != nil {
+		return nil, err // there is no updated value to convert
+	}
 	return update.(*traits.AirTemperature), err
 }
 
